@@ -34,12 +34,33 @@ pub enum Op {
     AdfSerde,
     /// `Bdd::fix_import()` on the live store (the repair step must be harmless at any time)
     FixImport,
+    /// serde JSON round trip where the repair step is only called in builds in which it does
+    /// something (as the CLI's --import does): with neither `variablelist` nor `adhoccounting` the
+    /// deserialised store is used as it is
+    SerdeNoFix,
 }
 
 #[derive(Clone, Debug, Serialize, Deserialize, PartialEq, Eq, Hash)]
 pub struct Program {
     pub k: u8,
     pub ops: Vec<Op>,
+    /// how the k logical variables are spread over the library's variable indices
+    /// (0 = 0..k; others leave gaps and cross the 64 / 128 boundaries)
+    #[serde(default)]
+    pub spread: u8,
+}
+
+/// library variable index of logical variable i (strictly increasing in i)
+pub fn varmap(k: usize, spread: u8) -> Vec<usize> {
+    (0..k)
+        .map(|i| match spread % 5 {
+            0 => i,
+            1 => [0usize, 1, 63, 64, 65, 127, 128, 200, 201, 300][i.min(9)] + i.saturating_sub(9) * 7,
+            2 => i * 33,
+            3 => 60 + i * 2,
+            _ => [5usize, 70, 71, 135, 136, 137, 260, 261, 262, 263][i.min(9)] + i.saturating_sub(9) * 3,
+        })
+        .collect()
 }
 
 pub fn op_strategy(rematerialise: bool) -> BoxedStrategy<Op> {
@@ -64,6 +85,7 @@ pub fn op_strategy(rematerialise: bool) -> BoxedStrategy<Op> {
             1 => Just(Op::AdfNodeList),
             1 => Just(Op::AdfSerde),
             1 => Just(Op::FixImport),
+            1 => Just(Op::SerdeNoFix),
         ]
         .boxed()
     } else {
@@ -75,8 +97,9 @@ pub fn program(kmax: u8, maxops: usize, rematerialise: bool) -> BoxedStrategy<Pr
     (
         1..=kmax,
         proptest::collection::vec(op_strategy(rematerialise), 1..=maxops),
+        prop_oneof![4 => Just(0u8), 1 => 1u8..5],
     )
-        .prop_map(|(k, ops)| Program { k, ops })
+        .prop_map(|(k, ops, spread)| Program { k, ops, spread })
         .boxed()
 }
 
@@ -173,6 +196,8 @@ pub struct Shadow {
     pub by_table: HashMap<Table, Term>,
     pub by_handle: HashMap<Term, Table>,
     pub step_no: usize,
+    /// logical variable -> library variable index
+    pub vm: Vec<usize>,
 }
 
 pub fn top_var(bdd: &Bdd, t: Term) -> usize {
@@ -191,6 +216,7 @@ impl Shadow {
             by_table: HashMap::new(),
             by_handle: HashMap::new(),
             step_no: 0,
+            vm: (0..k).collect(),
         };
         s.record(Term::BOT, t_const(k, false)).unwrap();
         s.record(Term::TOP, t_const(k, true)).unwrap();
@@ -232,8 +258,31 @@ impl Shadow {
     }
 
     /// the function really stored for `h`, read by walking the node table
+    pub fn with_spread(mut self, spread: u8) -> Self {
+        self.vm = varmap(self.k, spread);
+        self
+    }
+
+    /// logical index of a library variable (k for the constants' sentinels / unknown variables)
+    fn logical(&self, actual: usize) -> usize {
+        self.vm.iter().position(|&a| a == actual).unwrap_or(self.k)
+    }
+
     pub fn walked(&self, h: Term) -> Result<Table, String> {
-        sut::table_of(&self.bdd, h, self.k)
+        if self.vm.iter().enumerate().all(|(i, &a)| i == a) {
+            return sut::table_of(&self.bdd, h, self.k);
+        }
+        let rows = rows(self.k);
+        let mut out = vec![0u64; rows.div_ceil(64)];
+        for a in 0..rows {
+            if sut::walk(&self.bdd, h, &|v| match self.vm.iter().position(|&x| x == v) {
+                Some(i) => (a >> i) & 1 == 1,
+                None => false,
+            })? {
+                out[a / 64] |= 1 << (a % 64);
+            }
+        }
+        Ok(out)
     }
 
     /// Execute one op on the real store and on the model. Checks (C07) that the result denotes the
@@ -247,7 +296,7 @@ impl Shadow {
         let (res, table): (Term, Table) = match op {
             Op::Var(v) => {
                 let v = (*v as usize) % k;
-                (self.bdd.variable(Var(v)), t_var(k, v))
+                (self.bdd.variable(Var(self.vm[v])), t_var(k, v))
             }
             Op::Const(b) => (Bdd::constant(*b), t_const(k, *b)),
             Op::Not(a) => {
@@ -278,19 +327,21 @@ impl Shadow {
                 let sup = t_support(k, t);
                 info.deep_restrict = sup.contains(&v) && sup.first() != Some(&v);
                 let t = t_restrict(k, t, v, *val);
-                (self.bdd.restrict(h, Var(v), *val), t)
+                // the extra index k stands for a variable that never occurs (just above / between the used ones)
+                let actual = if v < k { self.vm[v] } else { self.vm[k - 1] + 1 };
+                (self.bdd.restrict(h, Var(actual), *val), t)
             }
             Op::Node(v, lo, hi) => {
                 let (hl, tl) = self.operand(*lo);
                 let (hh, th) = self.operand(*hi);
-                let m = top_var(&self.bdd, hl).min(top_var(&self.bdd, hh)).min(k);
+                let m = self.logical(top_var(&self.bdd, hl)).min(self.logical(top_var(&self.bdd, hh))).min(k);
                 if m == 0 {
                     // no variable lies above both children: not a call any caller could make
                     return Ok(info);
                 }
                 let var = pick((*v as u16) << 8, m);
                 let t = t_ite(k, var, th, tl);
-                (self.bdd.node(Var(var), hl, hh), t)
+                (self.bdd.node(Var(self.vm[var]), hl, hh), t)
             }
             Op::Serde => {
                 let json = serde_json::to_string(&self.bdd).map_err(|e| format!("serialise: {e}"))?;
@@ -304,6 +355,20 @@ impl Shadow {
             }
             Op::Rebuild => {
                 self.bdd = Bdd::from(self.bdd.nodes.clone());
+                info.rematerialised = true;
+                self.after_rematerialise(&before_nodes)?;
+                return Ok(info);
+            }
+            Op::SerdeNoFix => {
+                let json = serde_json::to_string(&self.bdd).map_err(|e| format!("serialise: {e}"))?;
+                let mut nb: Bdd =
+                    serde_json::from_str(&json).map_err(|e| format!("deserialise: {e}"))?;
+                #[allow(unexpected_cfgs)]
+                let must_fix = cfg!(not(feature = "probe")) || cfg!(feature = "variablelist") || cfg!(feature = "adhoccounting");
+                if must_fix {
+                    nb.fix_import();
+                }
+                self.bdd = nb;
                 info.rematerialised = true;
                 self.after_rematerialise(&before_nodes)?;
                 return Ok(info);
@@ -402,7 +467,13 @@ impl Shadow {
 
     /// C06 I1-I3 over the whole public node table.
     pub fn invariants(&self) -> Result<(), String> {
-        structural_invariants(&self.bdd.nodes, Some(self.k))
+        structural_invariants(&self.bdd.nodes, None)?;
+        for (i, n) in self.bdd.nodes.iter().enumerate().skip(2) {
+            if !self.vm.contains(&n.var().value()) {
+                return Err(format!("node {i} tests variable {} which was never created", n.var().value()));
+            }
+        }
+        Ok(())
     }
 }
 
